@@ -1,6 +1,6 @@
 (* Replays an observed operation history on the model and reports the first observation
    that differs. Used by the generated case files (C01, C16, ...). *)
-From LB Require Import Base.Prelude Log.Model Log.Retention.
+From LB Require Import Base.Prelude Log.Model Log.Retention Log.Compact Codec.Message.
 Open Scope Z_scope.
 
 Inductive lop :=
@@ -14,6 +14,8 @@ Inductive lop :=
 | LState (nw od hw : Z)
 | LClean (ttl : Z)
 | LLayout (lay : list (Z * Z * Z))
+| LCleanC (ttl : Z)                     (* Clean() on a log with Compact = true *)
+| LRRead (unc : bool) (start stop : Z) (found : bool) (recs : list rec)   (* reverse reader *)
 | LCleanRoll (ttl : Z) (during : list (list msg * N * list Z))   (* appends that arrive while Clean runs *)
 | LROpen (id : nat) (unc : bool) (o : Z) (ok : bool)
 | LRNext (id : nat) (recs : list rec) (e : N).   (* (base, message count, position) per segment *)
@@ -64,6 +66,12 @@ Definition step_log (maxb : Z) (cc : bool) (lim : limits) (l : log) (o : lop) : 
     (l, list_eqb rec_eqb rs recs && N.eqb (end_code en) e)
   | LState nw od hw => (l, (newest l =? nw) && (oldest l =? od) && (l_hw l =? hw))
   | LClean ttl => (clean lim ttl l, true)
+  | LCleanC ttl => (clean_compact key_of false lim ttl l, true)
+  | LRRead unc start stop found recs =>
+    match read_reverse true l start unc stop with
+    | Some rs => (l, found && list_eqb rec_eqb rs recs)
+    | None => (l, negb found)
+    end
   | LCleanRoll ttl during =>
     let n := length (l_segs l) in
     let '(l1, ok) := fold_left (fun st a => let '(l0, ok0) := st in let '(ms, res, offs) := a in
